@@ -40,6 +40,28 @@ func kindsFor(o GenOpts) []string {
 // addTxChain adds a same-block chain of v1 transactions to the pool.
 func (b *Builder) addTxChain(r *rng.R, kind string) bool {
 	switch kind {
+	case "v1-revise-shrink":
+		// a revision that SHORTENS the proof window (v1-revise-window only extends it): the contract's
+		// expiration moves to a lower height
+		if !b.v1Allowed() {
+			return false
+		}
+		h := b.height()
+		for _, fce := range b.sortedFC() {
+			fc := fce.FileContract
+			if b.reserved[types.Hash256(fce.ID)] || fc.WindowStart <= h+1 || fc.UnlockHash != b.Env.Addr || fc.WindowEnd <= fc.WindowStart+1 {
+				continue
+			}
+			rev := fc
+			rev.RevisionNumber++
+			rev.WindowEnd--
+			txn := types.Transaction{FileContractRevisions: []types.FileContractRevision{{ParentID: fce.ID, UnlockConditions: b.Env.UC, FileContract: rev}}}
+			b.signV1(&txn)
+			if b.addV1(kind, txn) {
+				return true
+			}
+		}
+		return false
 	case "v1-chain", "v1-chain-3":
 		sp := b.spendable()
 		if !b.v1Allowed() || len(sp) == 0 {
